@@ -445,3 +445,29 @@ package ddsketch
 //@   ensures positive: result1 == nil && store.SExact(result.positiveValueStore) ==> (forall k int :: KPos(result, k) == (pb.PositiveValues != nil ? store.PBView(pb.PositiveValues, k) : 0.0))
 //@   ensures negative: result1 == nil && store.SExact(result.negativeValueStore) ==> (forall k int :: KNeg(result, k) == (pb.NegativeValues != nil ? store.PBView(pb.NegativeValues, k) : 0.0))
 //@   modifies everything()
+
+// ---------------------------------------------------------------- iteration over the sketch (C12/C14)
+// ForEach: f is never called again after it asked to stop, only with positive weights, and the sketch's content is
+// unchanged afterwards (f may do anything outside the sketch's own storage). Which (value, weight) pairs are passed
+// is the stores' iteration contract composed with the mapping's Value; it is not restated here.
+//@ func DDSketch.ForEach
+//@   serves C12 C14
+//@   requires KInv(s)
+//@   ghost fstopped bool := false
+//@   callback f params value, count
+//@   callback f results stop
+//@   callback f requires !fstopped && count > 0.0
+//@   callback f preserves footprint(s)
+//@   callback f ghost fstopped := stop
+//@   ensures KInv(s) && KSame(s)
+//@   modifies everything()
+//@   foreach 1 invariant KInv(s) && KSame(s) && fstopped == stopped
+//@   foreach 2 invariant KInv(s) && KSame(s) && fstopped == stopped
+// GetSum: iterates without stopping and changes nothing (the value of the sum is not specified: it depends on the
+// pairs produced by iteration, see ForEach).
+//@ func DDSketch.GetSum
+//@   serves C12 C14
+//@   requires KInv(s)
+//@   ensures KInv(s) && KSame(s)
+//@   modifies everything()
+//@   foreach 1 invariant KInv(s) && KSame(s) && !fstopped
